@@ -70,6 +70,11 @@ def main():
         rc1, out1 = sh("/venv/bin/python _demo_seeded.py", cwd=wt, timeout=900)
         ran.append("demo with the change -> exit %d" % rc1)
         summary, failed = suite_result(wt)
+        flaky = {"tests/test_faker.py::test_nullable_columns", "tests/test_faker.py::test_unfakeable_types"}
+        if failed and set(failed) <= flaky:
+            # unseeded random-frequency tests of the faker fail now and then on the unchanged tree too: once more
+            ran.append("test suite with the change -> %s (only the randomly flaky %s failed; run again)" % (summary, ", ".join(failed)))
+            summary, failed = suite_result(wt)
         ran.append("test suite with the change -> %s" % summary)
         known8 = {"tests/test_dataframe.py::test_profile", "tests/test_dataframe.py::test_build_and_then_profile",
                   "tests/test_profiler.py::test_opteryx_profile_planets", "tests/test_profiler.py::test_opteryx_profile_satellites",
